@@ -14,7 +14,7 @@ import concurrent.futures as cf
 import json
 import os
 
-from lib import evidence, goenv, graph, tlc
+from lib import evidence, extension, goenv, graph, tlc
 from lib.common import MachineryError, classify_mismatches, log
 
 PKG = "./p2p/protocol/circuitv2/relay"
@@ -234,6 +234,7 @@ def run(ctx):
     if ctx.replay:
         raise MachineryError("C11 artefacts hold the failing prefix and the instance; re-run `VERIF_SEED=<seed in file name> ./check C11`")
     thorough = ctx.tier == "thorough"
+    ext = extension.start_all(ctx, ["C11cl"])   # the client side named in the anchors (Reserve's voucher checks, dial, accept)
     tlc.stage(ctx)
     beh_dir = ctx.sub("beh")
     rinsts = replay_instances(ctx)
@@ -295,6 +296,7 @@ def run(ctx):
         regression_walks={k: {"instance": v["instance"], "ops": [json.dumps(o, sort_keys=True) for o in v["ops"]]} for k, v in wit.items()},
         direct_scenarios=direct["replayed"], direct_steps=direct["steps"], direct_extra=direct.get("extra"),
         divergences_L2=div, notes=ctx.notes[:10], rule=res.get("rule"))
+    extension.finish_all(ctx, ext, cov)
     return {"level": "model_checking", "coverage": cov, "assumptions": [
         "bounded instances: <=3 peers, <=6 connections, caps 1-3, MaxCircuits 1-2, <=3 attempts in flight, TTL 2-3 units of 30 s, data limit 3 bytes (BufferSize 2); production-sized limits only in the direct forwarding scenarios",
         "fake host: stream handler invoked directly, NewStream returns an in-memory stop stream on the connection the model chose, Connectedness computed like the swarm (Limited with only /p2p-circuit connections); streams of a closed connection are reset locally as the swarm does",
@@ -311,5 +313,6 @@ MANIFEST = {
     "category": "model_checking",
     "text": "Reservations, caps, ACL, circuit counters and their rollback depend on histories (refresh from another address, disconnect with a limited connection left, expiry vs collection, a failure at each of the sixteen exits of the connect handler, two attempts racing on the per-peer counters, payloads around the data limit). TLC enumerates all of them on bounded instances and checks the clauses as invariants / action properties; covering walks over the complete printed graphs drive the real relay, so each (state, request, fault) combination of the instances is executed and its status code, voucher, delivered bytes, counters, tags and service-scope usage are compared; the monitors judge the real observations alone.",
     "note": "Trusted: TLC, the fake host and in-memory streams, testing/synctest, the harness ledger (fed only by what the real relay sent or did; when the client leaves before the answer, by the answer the relay tried to write). In-package reads (Relay.rsvp, Relay.conns, constraints lists) are L2 except Relay.conns (named by the statement). Found by this check and fixed in /repo: a refused refresh un-counted a live reservation (6cf8d1a); disconnected() left the relay-reservation tag when a limited connection remained (6390169); both kept as invariants of every instance and as explicit regression walks.",
-    "engines": [{"name": "C11_Relay", "path": "spec/C11_Relay.tla", "serves_properties": ["C11"], "kind_free_text": "TLA+ spec + TLC exhaustive + full-transition replay under virtual time + L1 ledger monitors + concurrent burst audit"}],
+    "engines": [{"name": "C11cl_Client", "path": "spec/C11cl_Client.tla", "serves_properties": ["C11"], "kind_free_text": "extension engine (checks/C11cl.py, run as a part of C11): the client side of circuit relay v2 with the relay as adversary - C11cl_Client (dial dedup, CONNECT handshake, upgrade, accept queue, hop tag, relative timers) and C11cl_Reserve (Dolev-Yao voucher terms); TLC exhaustive incl. liveness; every printed transition replayed on the real Client/Reserve through a gated fake host in virtual time with real rcmgr scopes and a real BasicConnMgr"},
+                {"name": "C11_Relay", "path": "spec/C11_Relay.tla", "serves_properties": ["C11"], "kind_free_text": "TLA+ spec + TLC exhaustive + full-transition replay under virtual time + L1 ledger monitors + concurrent burst audit"}],
 }
